@@ -28,9 +28,9 @@ def sh(cmd, **kw):
     return subprocess.run(cmd, shell=True, capture_output=True, text=True, **kw)
 
 
-def worktree(tag):
+def worktree(tag, commit="HEAD"):
     d = f"/dev/shm/vrf-seed-{tag}-{os.getpid()}"
-    r = sh(f"git -C /repo worktree add -q --detach {d} HEAD")
+    r = sh(f"git -C /repo worktree add -q --detach {d} {commit}")
     if r.returncode:
         raise SystemExit(r.stderr)
     return d
@@ -40,12 +40,12 @@ def drop(d):
     sh(f"git -C /repo worktree remove --force {d}")
 
 
-def verify(src, k, pid):
+def verify(src, k, pid, commit="HEAD"):
     patch, demo, notes = (os.path.join(src, f"m{k}{s}") for s in (".patch", "_demo.py", "_notes.md"))
     for f in (patch, demo):
         if not os.path.exists(f):
             raise SystemExit(f"missing {f}")
-    d = worktree(f"{pid}m{k}")
+    d = worktree(f"{pid}m{k}", commit)
     try:
         env = dict(os.environ, PYTHONPATH=f"{d}/src")
         base_demo = sh(f"{PY} {demo}", env=env, cwd="/dev/shm")
@@ -69,7 +69,7 @@ def verify(src, k, pid):
             "origin": "independent sub-agent given only the property text and a scratch worktree",
             "needs_to_manifest": open(notes).read().strip() if os.path.exists(notes) else "",
             "verified": {
-                "repo_commit": sh("git -C /repo rev-parse --short HEAD").stdout.strip(),
+                "repo_commit": sh(f"git -C /repo rev-parse --short {commit}").stdout.strip(),
                 "suite_with_change": suite,
                 "demo_exit_unchanged": base_demo.returncode,
                 "demo_exit_with_change": mut_demo.returncode,
@@ -91,11 +91,18 @@ def run(name, checks):
     meta = json.load(open(os.path.join(sd, "meta.json")))
     checks = checks or [meta["property"]]
     d = worktree(name)
+    base = "HEAD"
     try:
         ap = sh(f"git -C {d} apply {sd}/patch.diff")
         if ap.returncode:
-            print(name, "PATCH DOES NOT APPLY", ap.stderr[:200])
-            return
+            # the seeded change was written against an earlier commit: use that tree
+            drop(d)
+            base = meta["verified"]["repo_commit"]
+            d = worktree(name, base)
+            ap = sh(f"git -C {d} apply {sd}/patch.diff")
+            if ap.returncode:
+                print(name, "PATCH DOES NOT APPLY", ap.stderr[:200])
+                return
         results = {}
         rp = os.path.join(sd, "result.json")
         if os.path.exists(rp):
@@ -110,7 +117,7 @@ def run(name, checks):
                           "first": [re.sub(r"replay=\S+", "", l).strip() for l in viol[:4]],
                           "fault": [l for l in r.stdout.split("\n") if "FAULT" in l][:2]}
             print(f"{name} {c}: exit={r.returncode} violations={results[c]['violations']} {results[c]['first'][1:2]}")
-        json.dump({"seeded": name, "property": meta["property"], "checks": results}, open(rp, "w"), indent=1)
+        json.dump({"seeded": name, "property": meta["property"], "applied_on": base, "checks": results}, open(rp, "w"), indent=1)
     finally:
         drop(d)
 
@@ -130,7 +137,7 @@ def table():
 if __name__ == "__main__":
     cmd = sys.argv[1]
     if cmd == "verify":
-        sys.exit(0 if verify(sys.argv[2], sys.argv[3], sys.argv[4]) else 1)
+        sys.exit(0 if verify(sys.argv[2], sys.argv[3], sys.argv[4], *(sys.argv[5:6])) else 1)
     elif cmd == "run":
         run(sys.argv[2], sys.argv[3:])
     elif cmd == "run-all":
